@@ -65,16 +65,53 @@ class Stub:
 
         if getattr(m, "is_async", False):
             async def acall(*args, **kwargs):
-                return call(*args, **kwargs)
+                scripted = await _park(f"{ext.__name__}.{name}")
+                r = call(*args, **kwargs)
+                return r if scripted is _NOVALUE else scripted
 
             return acall
         return call
+
+    async def __aenter__(self):
+        return await self.__getattr__("__aenter__")()
+
+    async def __aexit__(self, *exc):
+        self.__getattr__("__aexit__")(*exc)
+        return False
 
     def __call__(self, *args, **kwargs):
         return self.__getattr__("__call__")(*args, **kwargs)
 
     def __repr__(self):
         return f"<stub {object.__getattribute__(self, '_ext').__name__}>"
+
+
+_NOVALUE = object()
+CURRENT = {"controller": None, "observe": None, "rec": None}
+
+
+async def _park(kind):
+    """Suspension point of a stub: parks on a future the replay controller completes per script."""
+    ctl = CURRENT["controller"]
+    if ctl is None:
+        return _NOVALUE
+    fut = ctl.loop.create_future()
+    fut._pyvc_kind = kind
+    v = await fut
+    return _NOVALUE if v is True else v
+
+
+def _native_observe(where, args=()):
+    lam, rec, bindings = CURRENT["observe"] or (None, None, None)
+    if lam is None:
+        return
+    code = lam.__code__
+    names = code.co_varnames[: code.co_argcount]
+    try:
+        d = lam(*[bindings[n] for n in names])
+    except Exception as e:  # pragma: no cover
+        d = {"__error__": repr(e)}
+    rec.add(("observe", where, d, tuple(args)))
 
 
 class Builder:
@@ -286,18 +323,31 @@ class wrap_callees:
             name = con.effect_name or qn
             rec = self.rec
 
-            def make(raw, name):
+            def make(raw, name, qn=qn):
                 if asyncio.iscoroutinefunction(raw):
                     async def w(self_, *a, **k):
-                        rec.depth += 1
-                        try:
-                            r = await raw(self_, *a, **k)
-                        finally:
-                            rec.depth -= 1
+                        # modular replay: the callee behaves as the model chose within its contract
+                        _native_observe("call:" + name, a)
+                        rec.add(("call", name, tuple(a), dict(k)))
+                        if CURRENT["controller"] is None:
+                            rec.depth += 1
+                            try:
+                                r = await raw(self_, *a, **k)
+                            finally:
+                                rec.depth -= 1
+                        else:
+                            try:
+                                r = await _park(qn)
+                            except BaseException:
+                                rec.add(("raise@" + qn, None))
+                                raise
+                            r = None if r is _NOVALUE else r
                         rec.add((name, self_, tuple(a), dict(k)))
                         return r
                 else:
                     def w(self_, *a, **k):
+                        _native_observe("call:" + name, a)
+                        rec.add(("call", name, tuple(a), dict(k)))
                         rec.depth += 1
                         try:
                             r = raw(self_, *a, **k)
@@ -416,34 +466,89 @@ def run_native(con: Contract, inputs, only=None, awaits=None):
     args = {k: v for k, v in bindings.items() if real_params is None or k in real_params or k == "self"}
     self_obj = args.pop("self", None)
     cls_arg = args.pop("cls", None) if isinstance(fn, types.MethodType) else None
+    from . import vloop
+
+    CURRENT["rec"] = rec
+    CURRENT["observe"] = (con.observe_, rec, bindings) if con.observe_ is not None else None
     try:
-        with wrap_callees(rec, con.qualname):
+        with wrap_callees(rec, con.qualname), patched_timeouts(rec):
             if self_obj is not None:
                 f = getattr(type(self_obj), con.qualname.split(".")[-1])
                 if isinstance(f, property):
                     result = f.fget(self_obj)
                 else:
-                    result = _invoke(f, (self_obj,), args, builder, awaits)
+                    result = _invoke(f, (self_obj,), args, builder, awaits, self_obj)
             else:
-                result = _invoke(fn, (), args, builder, awaits)
+                result = _invoke(fn, (), args, builder, awaits, None)
+    except (vloop.HarnessMismatch, HarnessError) as e:
+        return {"error": f"replay harness could not realise the counterexample: {e}",
+                "replay_log": getattr(builder, "replay_log", None)}
     except BaseException as e:  # noqa: the object program may raise anything
         if isinstance(e, (KeyboardInterrupt, SystemExit)):
             raise
         raised = e
+    finally:
+        CURRENT["controller"] = None
+        CURRENT["observe"] = None
     judgements = judge(con, bindings, old_bindings, result, raised, rec.fx, only=only)
     return {
         "outcome": "return" if raised is None else f"raise:{type(raised).__name__}: {raised!r}",
         "result": repr(result)[:300],
-        "fx": [repr(r)[:300] for r in rec.fx][:50],
+        "fx": [repr(r)[:300] for r in rec.fx][:60],
         "judgements": [(n, ok, d) for n, ok, d in judgements],
+        "replay_log": getattr(builder, "replay_log", None),
+        "mode": ("coroutine on a virtual-clock loop; interference realised by state injection; contracted "
+                 "callees and external collaborators stubbed per the model") if awaits else "direct call",
     }
 
 
-def _invoke(f, pos, kwargs, builder, awaits):
+class HarnessError(Exception):
+    pass
+
+
+def _invoke(f, pos, kwargs, builder, awaits, self_obj):
     if asyncio.iscoroutinefunction(f):
         from . import vloop
 
-        return vloop.run_coroutine(f(*pos, **kwargs), builder, awaits)
+        try:
+            coro = f(*pos, **kwargs)
+        except TypeError as e:
+            raise HarnessError(f"cannot call: {e!r}")
+        return vloop.run_coroutine(coro, builder, awaits, self_obj)
     return f(*pos, **kwargs)
+
+
+class patched_timeouts:
+    """asyncio.timeout as imported by the repo modules records ("timeout.armed", None, (t,), {})."""
+
+    MODULES = ("bellows.ash", "bellows.uart", "bellows.ezsp", "bellows.ezsp.protocol", "bellows.zigbee.application",
+               "bellows.multicast")
+
+    def __init__(self, rec):
+        self.rec, self.saved = rec, []
+
+    def __enter__(self):
+        rec = self.rec
+        for mn in self.MODULES:
+            try:
+                mod = importlib.import_module(mn)
+            except Exception:
+                continue
+            orig = getattr(mod, "asyncio_timeout", None)
+            if orig is None:
+                continue
+
+            def wrapper(t, _orig=orig):
+                rec.add(("timeout.armed", None, (t,), {}))
+                return _orig(t)
+
+            self.saved.append((mod, orig))
+            mod.asyncio_timeout = wrapper
+        return self
+
+    def __exit__(self, *exc):
+        for mod, orig in self.saved:
+            mod.asyncio_timeout = orig
+        return False
 
 
